@@ -7,6 +7,7 @@
 //! env:   VERIF_SEED (default 0), VERIF_TIER (overrides --tier)
 //! exit:  0 held / 1 violation (VIOLATION line) / 2 could not decide
 
+mod clidrv;
 mod common;
 mod dhw;
 mod dom;
@@ -55,6 +56,7 @@ registry! {
     "C13" => props::c13::C13,
     "C14" => props::c14::C14,
     "C15" => props::c15::C15,
+    "C19" => props::c19::C19,
 }
 
 fn main() {
